@@ -65,6 +65,7 @@ class BufferLevelSequence(Contract):
                         continue
                     out.append(dict(kind=kind, acc=acc, init=init, final=final, opt=False))
             out.append(dict(kind=kind, acc=("U", "L"), init=True, final=False, opt=True))
+            out.append(dict(kind=kind, acc=("U", "L"), init=True, final=True, opt=False, same_task=True))
         return out
 
     def scenario(self, ps, P, case):
@@ -73,8 +74,11 @@ class BufferLevelSequence(Contract):
         b = make_buffer(ps, P, case["kind"], "b", init=case["init"], final=case["final"])
         tasks, events = [], []
         for i, a in enumerate(case["acc"]):
-            P.assume(P.int(f"t{i+1}_dur") >= 1)
-            t = ps.FixedDurationTask(name=f"t{i+1}", duration=P.int(f"t{i+1}_dur"), optional=(case["opt"] and i == 0))
+            if case.get("same_task") and i > 0:
+                t = tasks[0]  # the task that unloaded at its start loads at its end
+            else:
+                P.assume(P.int(f"t{i+1}_dur") >= 1)
+                t = ps.FixedDurationTask(name=f"t{i+1}", duration=P.int(f"t{i+1}_dur"), optional=(case["opt"] and i == 0))
             P.assume(P.int(f"q{i+1}") >= 1)
             if a == "U":
                 ps.TaskUnloadBuffer(task=t, buffer=b, quantity=P.int(f"q{i+1}"))
@@ -158,6 +162,8 @@ class BufferCompleteness(Contract):
         for kind in ("nc", "c"):
             for acc in (("U", "L"), ("L", "L"), ("U", "U")):
                 out.append(dict(kinds=(kind,), acc=acc, shared=True))
+            # one task takes from the buffer when it starts and gives back when it ends
+            out.append(dict(kinds=(kind,), acc=("U", "L"), shared=True, same_task=True))
         return out
 
     def scenario(self, ps, P, case):
@@ -166,8 +172,11 @@ class BufferCompleteness(Contract):
         buffers = [make_buffer(ps, P, k, f"b{i+1}", init=True, final=False) for i, k in enumerate(case["kinds"])]
         tasks = []
         for i, a in enumerate(case["acc"]):
-            P.assume(P.int(f"t{i+1}_dur") >= 1)
-            t = ps.FixedDurationTask(name=f"t{i+1}", duration=P.int(f"t{i+1}_dur"))
+            if case.get("same_task") and i > 0:
+                t = tasks[0][0]
+            else:
+                P.assume(P.int(f"t{i+1}_dur") >= 1)
+                t = ps.FixedDurationTask(name=f"t{i+1}", duration=P.int(f"t{i+1}_dur"))
             P.assume(P.int(f"q{i+1}") >= 1)
             b = buffers[0] if case["shared"] or len(buffers) == 1 else buffers[i]
             if a == "U":
@@ -183,7 +192,11 @@ class BufferCompleteness(Contract):
         pb, buffers, tasks, solver = ctx["pb"], ctx["buffers"], ctx["tasks"], ctx["solver"]
         A = asserted(solver)
         hz, H = pb._horizon, pb.horizon
-        valid = [valid_placement(t, i + 1, hz, H) for i, (t, b, a, _) in enumerate(tasks)] + [hz >= 0, hz <= T(H)]
+        distinct = []
+        for (t, b, a, _) in tasks:
+            if not any(t is u for u in distinct):
+                distinct.append(t)
+        valid = [valid_placement(t, i + 1, hz, H) for i, t in enumerate(distinct)] + [hz >= 0, hz <= T(H)]
         wit = []
         hyps = []
         for bi, b in enumerate(buffers):
@@ -235,6 +248,7 @@ class BufferCompleteness(Contract):
 
 @register
 class CleanBufferLevels(Contract):
+    optional_target = True  # a lemma about an internal helper of util.py
     """util.clean_buffer_levels: pure list function"""
 
     target = "util.clean_buffer_levels"
